@@ -844,9 +844,15 @@ fn main() {
                                 h.num_bits = h.num_bits.saturating_sub(1 + rng.below(2));
                             }
                             1 => {
+                                let old = h.num_bits;
                                 h.num_bits += 1 + rng.below(3);
                                 while h.num_bits > 64 * h.words.len() as u64 {
                                     h.words.push(if rng.chance(1, 2) { 0 } else { rng.next() });
+                                }
+                                // a live bit for a validator index beyond the set (signer out of range)
+                                if rng.chance(1, 2) {
+                                    let i = old + rng.below(h.num_bits - old);
+                                    h.set_bit(i, true);
                                 }
                             }
                             2 => {
